@@ -20,7 +20,7 @@ from harness.common import extract, fakeproc
 from harness.common.extract import NotRecognised
 
 PROP = "C15"
-DRIVER_MODULES = ["PsutilModel.Model.C15Gen", "PsutilModel.Spec.C15"]
+DRIVER_MODULES = ["PsutilModel.Model.C15Gen", "PsutilModel.Model.C15R2", "PsutilModel.Spec.C15"]
 NEEDS_EXT = True
 TRUSTED = [
     "C15 environment: system calls cost zero virtual time (only _sleep and a blocking waitpid advance the clock); an interrupted waitpid returns at once; doubles are modelled by exact rationals (a logged float sleep must be the double nearest to the model's rational)",
@@ -248,6 +248,55 @@ def _slice_fact(tree):
     raise NotRecognised("max_timeout assignment not found")
 
 
+def _wp_stmts(fn):
+    """statements of wait_procs without the nested check_gone()"""
+    return [st for st in _body(fn) if not isinstance(st, ast.FunctionDef)]
+
+
+def _loops_fact(tree):
+    """wait_procs: every `for proc in X` iterates `alive`; the main loop is `while alive:` and ends with
+    `alive = alive - gone`; so does the last attempt (`if alive:`)"""
+    fn = extract.find_def(tree, "wait_procs")
+    top = _wp_stmts(fn)
+    fors = [n for st in top for n in ast.walk(st) if isinstance(n, (ast.For, ast.comprehension))]
+    whiles = [st for st in top if isinstance(st, ast.While)]
+    if len(whiles) != 1 or not fors:
+        raise NotRecognised("wait_procs: expected one top-level while loop and at least one for loop")
+    wh = whiles[0]
+
+    def refresh(st):
+        src = extract.unparse(st).replace(" ", "")
+        return src in ("alive=alive-gone", "alive-=gone", "alive=alive.difference(gone)", "alive.difference_update(gone)")
+    ok = extract.unparse(wh.test) == "alive" and all(extract.unparse(f.iter) == "alive" for f in fors) \
+        and refresh(wh.body[-1])
+    tail = [st for st in top[top.index(wh) + 1:] if isinstance(st, ast.If)]
+    for st in tail:
+        if any(isinstance(n, ast.For) for n in ast.walk(st)):
+            ok = ok and extract.unparse(st.test) == "alive" and refresh(st.body[-1])
+    return ok
+
+
+def _alive_set_fact(tree):
+    """wait_procs: `gone = set()` and `alive = set(procs)` in front of the loops, after the timeout validation"""
+    fn = extract.find_def(tree, "wait_procs")
+    seen_validation = False
+    alive = gone = None
+    for st in _wp_stmts(fn):
+        if isinstance(st, (ast.While, ast.For)):
+            break
+        if _raises(st, "ValueError"):
+            seen_validation = True
+        if isinstance(st, ast.Assign) and len(st.targets) == 1:
+            t, v = extract.dotted(st.targets[0]), extract.unparse(st.value)
+            if t == "alive":
+                alive = (v, seen_validation)
+            if t == "gone":
+                gone = v
+    if alive is None or gone is None:
+        raise NotRecognised("wait_procs: `alive = …` / `gone = …` not found in front of the loops")
+    return alive == ("set(procs)", True) and gone == "set()"
+
+
 def facts(snap, F):
     posix = extract.parse_module(snap, "_psposix.py")
     init = extract.parse_module(snap, "__init__.py")
@@ -292,6 +341,10 @@ def facts(snap, F):
               "Popen.wait: `ret = super().wait(timeout); self.__subproc.returncode = ret; return ret`")
     F.try_add("popenValidateFirst", "Bool", lambda: extract.lean_bool(pp()["validateFirst"]),
               "Popen.wait rejects a negative timeout (`timeout is not None and not timeout >= 0`) before looking at returncode")
+    F.try_add("loopsOverAlive", "Bool", lambda: extract.lean_bool(_loops_fact(init)),
+              "wait_procs: `while alive:`, every `for proc in alive`, each pass ends with `alive = alive - gone`")
+    F.try_add("aliveIsSet", "Bool", lambda: extract.lean_bool(_alive_set_fact(init)),
+              "wait_procs: `gone = set()`, `alive = set(procs)` after the timeout validation, in front of the loops")
 
 
 # ------------------------------------------------------------------------------ simulated kernel
@@ -342,14 +395,17 @@ class World:
         if self.cost_rng is not None:
             c = self.cost_rng.choice(COSTS)
             self.cost_total += c
+            self.costs.append(c)
             self.now += c
 
     def reset_logs(self):
         self.steps = 0
         self.cost_total = Fr(0)
+        self.costs = []               # cost of every system call made, in order (costed runs)
         self.last_poll = None         # (instant, saw the process alive?) of the last waitpid/pid_exists answer
         self.sleeps = []
         self.calls = []           # (pid, timeout) of every Process.wait entered
+        self.waited_ids = []      # id() of the object each of those calls was made on
         self.oscalls = 0
         self.last_wait_eintr = False
 
@@ -484,6 +540,7 @@ class Impl:
                 if world.steps > world.max_steps:
                     raise Diverge("spin")
                 world.calls.append((self.pid, timeout))
+                world.waited_ids.append(id(self))
                 return super().wait(timeout)
 
             def is_running(self):
@@ -493,6 +550,24 @@ class Impl:
                 world.sync_procfs()
                 return super().is_running()
         self.VProcess = VProcess
+
+        class VPopen(ps.Popen):
+            """a real psutil.Popen (real __init__ / wait / __getattribute__) over the stub subprocess"""
+            def wait(self, timeout=None):
+                world.steps += 1
+                if world.steps > world.max_steps:
+                    raise Diverge("spin")
+                world.calls.append((self.pid, timeout))
+                world.waited_ids.append(id(self))
+                return super().wait(timeout)
+
+            def is_running(self):
+                world.steps += 1
+                if world.steps > world.max_steps:
+                    raise Diverge("spin")
+                world.sync_procfs()
+                return super().is_running()
+        self.VPopen = VPopen
 
     def close(self):
         self.px.wait_pid.__defaults__ = self.saved_defaults
@@ -645,19 +720,27 @@ class Impl:
         return obs
 
     def run_wprocs(self, case):
-        """`psutil.wait_procs(procs, timeout, callback)`"""
+        """`psutil.wait_procs(procs, timeout, callback)`; a process may be handed in as a plain Process, as a
+        psutil.Popen (`popen`), twice (same object), or as two EQUAL objects ([pid, 1] = a second object);
+        `unhashable` = position at which something that cannot be hashed is inserted"""
         start = Fr(*case["start"])
         self.new_world(start)
         w = self.world
         objs = {}
+        stubs = {}
         try:
             for p in case["procs"]:
                 self.ensure_proc(p["pid"])
-                objs[p["pid"]] = self.VProcess(p["pid"])
+                if p.get("popen"):
+                    self.next_popen_pid = p["pid"]
+                    objs[p["pid"]] = self.VPopen(["vproc"])
+                    stubs[p["pid"]] = object.__getattribute__(objs[p["pid"]], "_Popen__subproc")
+                else:
+                    objs[p["pid"]] = self.VProcess(p["pid"])
             twins = {}
             lst = []
             for item in case["list"]:
-                # [pid, 0] = the object; [pid, 1] = a second, equal, object for the same process
+                # [pid, 0] = the object; [pid, 1] = a second, equal, object (a plain Process) for the same process
                 pid, twin = item
                 if twin:
                     if pid not in twins:
@@ -667,9 +750,24 @@ class Impl:
                     lst.append(objs[pid])
         except BaseException as e:  # noqa: BLE001
             return {"kind": "exc", "exc": "ctor:" + type(e).__name__}
+        if case.get("unhashable") is not None:
+            lst.insert(min(case["unhashable"], len(lst)), [objs[case["procs"][0]["pid"]]])
         for p in case["procs"]:
             w.add(p["pid"], p["env"])
         w.sync_procfs()
+        rc0 = {}
+        for p in case["procs"]:
+            pid = p["pid"]
+            if p.get("popen") and p.get("extpoll"):
+                # subprocess.Popen.poll() ran before the call: waitpid(pid, WNOHANG) -> _handle_exitstatus
+                wp = w.procs[pid]
+                st = wp["status"]
+                if wp["kind"] == "child" and not wp["reaped"] and w.ended(wp) and World.terminal(st):
+                    stubs[pid].returncode = os.WEXITSTATUS(st) if os.WIFEXITED(st) else -os.WTERMSIG(st)
+                    wp["reaped"] = True
+                    w.sync_procfs()
+            if p.get("popen"):
+                rc0[pid] = stubs[pid].returncode
         for p in case["procs"]:
             if p.get("prewait"):
                 try:
@@ -678,8 +776,16 @@ class Impl:
                     pass
         w.reset_logs()
         w.max_sleeps = FUEL * 8          # a whole wait_procs call may sleep more than one wait call
-        cblog = []
-        cb = (lambda pr: cblog.append(pr.pid)) if case["hasCb"] else None
+        pos_of = {}
+        for i, o in enumerate(lst):
+            if not isinstance(o, list):
+                pos_of.setdefault(id(o), i)      # first position at which this very object stands
+        cblog, cbpos = [], []
+
+        def on_gone(pr):
+            cblog.append(pr.pid)
+            cbpos.append(pos_of.get(id(pr), -1))
+        cb = on_gone if case["hasCb"] else None
         if case.get("cb") == "bad":
             cb = 42                     # neither None nor callable
         tmo = None if case["timeout"] is None else Fr(*case["timeout"])
@@ -690,7 +796,8 @@ class Impl:
         out = self.outcome(call)
         flat = [pid for pid, _ in w.calls]
         if out["kind"] != "none":
-            return {"kind": "raised", "out": out, "flat": flat, "oscalls": w.oscalls, "ret": jrat(w.now)}
+            return {"kind": "raised", "out": out, "flat": flat, "oscalls": w.oscalls, "ret": jrat(w.now),
+                    "rc0": rc0}
         gone, alive = res["r"]
         rep = {}
         for o in list(gone) + list(alive):
@@ -698,19 +805,61 @@ class Impl:
         for pid, o in objs.items():
             rep.setdefault(pid, o)
         rcs = []
+        bad_attr = []
         for pid in sorted(rep):
             o = rep[pid]
-            if hasattr(o, "returncode"):
-                rc = o.returncode
-                rcs.append([pid, {"v": None if rc is None else int(rc)}])
+            d = object.__getattribute__(o, "__dict__")
+            if "returncode" in d:
+                rc = d["returncode"]
+                if rc is None or (isinstance(rc, int) and not isinstance(rc, bool)):
+                    rcs.append([pid, {"v": None if rc is None else int(rc)}])
+                else:
+                    rcs.append([pid, {"v": None}])
+                    bad_attr.append([pid, repr(rc)])
             else:
                 rcs.append([pid, None])
         calls = []
         for pid, t in w.calls:
             calls.append([pid, t])
+        # identity: of several equal objects only the first one of the list may be waited on / touched / returned
+        surv = {}
+        for i, o in enumerate(lst):
+            if not isinstance(o, list):
+                surv.setdefault(o.pid, i)
+        untouched_ok = True
+        touched = []
+        for i, o in enumerate(lst):
+            if isinstance(o, list) or lst[surv[o.pid]] is o:
+                continue
+            d = object.__getattribute__(o, "__dict__")
+            if "returncode" in d or d.get("_exitcode", None) is not self.ps._SENTINEL or id(o) in w.waited_ids:
+                untouched_ok = False
+                touched.append(i)
+        subs = []
+        for pid in sorted(stubs):
+            if pid not in surv or lst[surv[pid]] is not objs[pid]:
+                continue                # an equal plain Process object stands for this process
+            rc = stubs[pid].returncode
+            subs.append([pid, {"v": None if rc is None else int(rc)}])
         return {"kind": "ok", "gone": [o.pid for o in gone], "alive": [o.pid for o in alive],
                 "returncodes": rcs, "cbLog": cblog, "ret": jrat(w.now),
-                "sleeps": [jrat(s) for s in w.sleeps], "calls": calls, "flat": flat}
+                "sleeps": [jrat(s) for s in w.sleeps], "calls": calls, "flat": flat,
+                "gone_pos": [pos_of.get(id(o), -1) for o in gone], "alive_pos": [pos_of.get(id(o), -1) for o in alive],
+                "cb_pos": cbpos, "waited_pos": sorted({pos_of.get(i, -1) for i in w.waited_ids}),
+                "twins_untouched": untouched_ok, "touched": touched, "subs": subs, "rc0": rc0, "bad_attr": bad_attr}
+
+    def run_waitc(self, case):
+        """`_psposix.wait_pid(pid, timeout)` with system calls that take (virtual) time"""
+        import random
+        w = self.world
+        w.cost_rng = random.Random(case["cost_seed"])
+        try:
+            ob = Impl.run_wait(self, case)
+        finally:
+            w.cost_rng = None
+        ob["costs"] = [jrat(c) for c in w.costs]
+        ob["last_poll_alive"] = None if w.last_poll is None else bool(w.last_poll[1])
+        return ob
 
 
 # ------------------------------------------------------------------------------ generators
@@ -978,6 +1127,12 @@ def gen_wprocs_case(rng):
         if exit_at is not None and exit_at <= start and rng.random() < 0.3:
             p["prewait"] = True
         procs.append(p)
+    for p in procs:
+        # the object handed in is a psutil.Popen (its wait() answers from subprocess's returncode first)
+        if rng.random() < 0.3:
+            p["popen"] = True
+            if p["env"]["kind"] == "child" and rng.random() < 0.4:
+                p["extpoll"] = True     # subprocess's own poll() ran before the call
     lst = [[p["pid"], 0] for p in procs]
     dup = rng.random()
     if dup < 0.15:
@@ -987,6 +1142,7 @@ def gen_wprocs_case(rng):
         for p in procs:
             if p["pid"] == lst[-1][0]:
                 p.pop("prewait", None)
+                p.pop("extpoll", None)
     rng.shuffle(lst)
     case = {"op": "wprocs", "procs": procs, "list": lst,
             "timeout": None if timeout is None else jrat(timeout), "start": jrat(start),
@@ -997,7 +1153,40 @@ def gen_wprocs_case(rng):
         case["hasCb"] = True
         case["cb"] = "bad"
         case["fam"]["cb"] = "bad"
+    if rng.random() < 0.05:
+        # something that cannot be hashed among the processes: TypeError from set(procs), after the timeout validation
+        case["unhashable"] = rng.randrange(0, len(lst) + 1)
+        case["fam"]["unhashable"] = True
     return case
+
+
+# ---- exhaustive family (second extension): every combination of
+#      2-3 processes x the pass in which each one exits (1, 2, 3, never) x timeout (None, short, long), with a callback.
+#      A pass of wait_procs lasts 1 s in total (1/len(alive) s per process), so "exits in pass k" = exits at k - 1/2 s.
+EXIT_PASS = {1: Fr(1, 4), 2: Fr(5, 4), 3: Fr(9, 4), None: None}
+ENUM_TIMEOUTS = {"none": None, "short": Fr(1, 20), "long": Fr(7, 2)}
+
+
+def enum_cases():
+    import itertools
+    out = []
+    for n in (2, 3):
+        for passes in itertools.product([1, 2, 3, None], repeat=n):
+            for tname, tmo in ENUM_TIMEOUTS.items():
+                if tmo is None and None in passes:
+                    continue            # would never return
+                procs = []
+                for i, k in enumerate(passes):
+                    ex = EXIT_PASS[k]
+                    kind = "child" if i % 2 == 0 else "nonchild"
+                    procs.append({"pid": PIDS[i], "env": jenv(kind, [0, 9, 256][i % 3] if kind == "child" else 0, ex, [])})
+                    if i == 1:
+                        procs[-1]["popen"] = True
+                out.append({"op": "wprocs", "procs": procs, "list": [[p["pid"], 0] for p in procs],
+                            "timeout": None if tmo is None else jrat(tmo), "start": [0, 1], "hasCb": True, "fuel": FUEL,
+                            "fam": {"timeout": "enum-" + tname, "n": n, "enum": True,
+                                    "passes": ",".join("-" if k is None else str(k) for k in passes)}})
+    return out
 
 
 CORPUS = [
@@ -1101,9 +1290,28 @@ def same_wprocs(ob, m):
 
 def wprocs_line(case, ob):
     """driver line for a wait_procs case, with the implementation's observation"""
-    line = {"op": "wprocs", "procs": case["procs"], "list": [pid for pid, _ in case["list"]],
+    rc0 = ob.get("rc0") or {}
+    procs = []
+    first_twin = {}
+    for pid, twin in case["list"]:
+        first_twin.setdefault(pid, twin)
+    for p in case["procs"]:
+        q = {k: v for k, v in p.items() if k not in ("extpoll", "popen")}
+        if p.get("popen") and not first_twin.get(p["pid"], 0):
+            # the Popen object is the one that stands for the process (an equal plain Process does not come first)
+            q["popen"] = True
+            q["rc0"] = {"v": rc0.get(p["pid"])}
+        procs.append(q)
+    # identity of each element = the first position at which that very object stands
+    first_pos, oids = {}, []
+    for i, (pid, twin) in enumerate(case["list"]):
+        first_pos.setdefault((pid, twin), i)
+        oids.append(first_pos[(pid, twin)])
+    line = {"op": "wprocs", "procs": procs, "list": [pid for pid, _ in case["list"]], "oids": oids,
             "timeout": case["timeout"], "start": case["start"], "hasCb": case["hasCb"],
             "flat": ob.get("flat", []), "fuel": case["fuel"]}
+    if case.get("unhashable") is not None:
+        line["hashable"] = False
     if case.get("cb"):
         line["cb"] = case["cb"]
     if ob["kind"] == "ok":
@@ -1126,6 +1334,12 @@ def evaluate(ctx, impl, cases, res, source="generated"):
         if case["op"] == "wait":
             ob = impl.run_wait(case)
             line = strip(case)
+            if representable(ob["out"]):
+                line["obs"] = obs_line(ob)
+        elif case["op"] == "waitc":
+            ob = impl.run_waitc(case)
+            line = {k: v for k, v in strip(case).items() if k != "cost_seed"}
+            line["costs"] = ob["costs"]
             if representable(ob["out"]):
                 line["obs"] = obs_line(ob)
         elif case["op"] == "popen":
@@ -1169,6 +1383,8 @@ def evaluate(ctx, impl, cases, res, source="generated"):
         m, sp = ans["model"], ans["spec"]
         if case["op"] == "wait":
             found += judge_single(res, inp, case["env"], case["timeout"], ob, m, sp)
+        elif case["op"] == "waitc":
+            found += judge_costed(res, inp, ob, m, sp)
         elif case["op"] == "popen":
             for i, o in enumerate(ob):
                 n = judge_popen(res, dict(inp, call=i), case["env"], case["calls"][i]["timeout"], o, m[i], sp[i])
@@ -1207,6 +1423,27 @@ def judge_single(res, inp, env, timeout, ob, m, sp):
             return 1
     if not same_single(ob, m):
         res.disagree("model", inp, ob, m, sp, note="implementation and model observations differ (Spec clauses hold)")
+        return 1
+    return 0
+
+
+def judge_costed(res, inp, ob, m, sp):
+    """wait_pid with system calls that take time: the clauses with 40 ms + 5*delta (delta = the largest cost in
+    the run, theorem C15_costed_bounds), and implementation = costed model fed with the same costs"""
+    if not representable(ob["out"]):
+        res.disagree("spec", inp, ob, m, sp, note="implementation raised/returned something the property does not allow: %r" % (ob["out"],))
+        return 1
+    if sp["impl_violations"]:
+        res.disagree("spec", inp, ob, m, sp, note="with system calls taking up to delta=%s s the implementation violates %s"
+                     % (Fr(*sp["delta"]), sp["impl_violations"]))
+        return 1
+    if sp["model_violations"]:
+        res.disagree("model", inp, ob, m, sp, note="the costed MODEL violates %s" % sp["model_violations"])
+        return 1
+    if ob["out"]["kind"] in ("fuel", "hang") and ob["out"]["kind"] == m["out"]["kind"]:
+        return 0
+    if ob["out"] != m["out"] or ob["ret"] != m["ret"] or ob["sleeps"] != m["sleeps"] or len(ob["costs"]) != m["nsys"]:
+        res.disagree("model", inp, ob, m, sp, note="implementation and costed model differ (same per-call costs)")
         return 1
     return 0
 
@@ -1284,7 +1521,24 @@ def judge_wprocs(res, inp, ob, m, sp):
     if sp["model_violations"]:
         res.disagree("model", inp, ob, m, sp, note="the MODEL violates Spec clauses %s" % sp["model_violations"])
         return 1
-    if not same_wprocs(ob, m):
+    # (second extension) which objects: of several equal objects the first of the list stands for the process
+    want = sorted(m.get("survivors", []))
+    got = sorted([pid, pos] for pid, pos in zip(ob["gone"] + ob["alive"], ob["gone_pos"] + ob["alive_pos"]))
+    if got != want or not ob["twins_untouched"] or any(p not in ob["gone_pos"] for p in ob["cb_pos"]) \
+            or any(p not in [x[1] for x in want] for p in ob["waited_pos"]) or ob["bad_attr"]:
+        res.disagree("spec", inp, ob, m, sp, note="wait_procs must wait on / set returncode on / call back / return the FIRST of "
+                     "several equal objects and leave the others alone: returned (pid, position) %r, expected %r, positions "
+                     "called back %r, waited on %r, later equal objects touched: %r, returncode attributes of a wrong type: %r"
+                     % (got, want, ob["cb_pos"], ob["waited_pos"], ob["touched"], ob["bad_attr"]))
+        return 1
+    # a gone Popen: subprocess's returncode and the returncode attribute agree on an exit status
+    rcd = {pid: v for pid, v in ob["returncodes"]}
+    for pid, sv in ob["subs"]:
+        if pid in ob["gone"] and rcd.get(pid) is not None and rcd[pid]["v"] is not None and sv != rcd[pid]:
+            res.disagree("spec", inp, ob, m, sp, note="gone Popen %d: subprocess returncode %r but wait_procs set returncode %r"
+                         % (pid, sv, rcd[pid]))
+            return 1
+    if not same_wprocs(ob, m) or ob["subs"] != sorted(m.get("subs", [])):
         res.disagree("model", inp, ob, m, sp, note="implementation and model observations differ (Spec clauses hold)")
         return 1
     return 0
@@ -1334,55 +1588,6 @@ def status_sweep(ctx, impl, res):
     return bad
 
 
-# ------------------------------------------------------------------------------ supporting: syscalls that take time
-
-
-def costed_support(ctx, impl, res, n):
-    """The model charges nothing for a syscall. Supporting check (thorough tier): run the real wait_pid with
-    random per-syscall costs (0 … 1 ms each) and check the property's inequalities with the measured cost added."""
-    w = impl.world
-    bad = 0
-    w.cost_rng = ctx.rng
-    try:
-        for _ in range(n):
-            case = gen_wait_case(ctx.rng)
-            if case["pid"] == 0 or has_eintr(case["env"]):
-                continue
-            ob = impl.run_wait(case)
-            out, ret = ob["out"], Fr(*ob["ret"])
-            start = Fr(*case["start"])
-            tmo = None if case["timeout"] is None else Fr(*case["timeout"])
-            ex = None if case["env"]["exitAt"] is None else Fr(*case["env"]["exitAt"])
-            kind = case["env"]["kind"]
-            ended = kind == "never" or (ex is not None and ex <= ret)
-            why = None
-            if out["kind"] in ("code", "none") and not ended:
-                why = "result before the process ended"
-            elif out["kind"] == "timeout":
-                if ret < start + tmo:
-                    why = "TimeoutExpired before the deadline"
-                elif w.last_poll is None or not w.last_poll[1]:
-                    why = "TimeoutExpired although the last poll saw the process gone"
-                elif not ret < start + tmo + CAP + w.cost_total:
-                    why = "TimeoutExpired later than deadline + 40 ms + syscall costs"
-            elif out["kind"] in ("hang", "fuel", "spin") and tmo is not None:
-                why = "does not come back although a timeout was given"
-            if why is None and any(Fr(*x) != POLLS_IV[i] for i, x in enumerate(ob["sleeps"])):
-                why = "sleep schedule"
-            if why is None and tmo == 0 and ob["sleeps"]:
-                why = "timeout=0 slept"
-            res.count("costed-support:runs")
-            if why:
-                bad += 1
-                if bad <= 3:
-                    res.disagree("spec", {"case": strip(case), "source": "costed-support (syscalls take 0-1 ms)"}, ob, None,
-                                 {"cost_total": jrat(w.cost_total)}, note="with syscall costs: " + why)
-    finally:
-        w.cost_rng = None
-    res.extra["costed_support_violations"] = bad
-    return bad
-
-
 POLLS_IV = [min(I0 * 2 ** k, CAP) for k in range(FUEL + 1)]
 
 
@@ -1408,9 +1613,30 @@ def features(case, ob):
                 f.append("wprocs:refused TypeError (callback not callable)")
         if case.get("cb") == "bad":
             f.append("wprocs:cb=bad")
+        if case.get("unhashable") is not None:
+            f.append("wprocs:unhashable item")
+        if any(p.get("popen") for p in case["procs"]):
+            f.append("wprocs:popen objects" + (" mixed with Process objects" if not all(p.get("popen") for p in case["procs"]) else ""))
+            if ob.get("kind") == "ok":
+                gp = [p["pid"] for p in case["procs"] if p.get("popen") and p["pid"] in ob["gone"]]
+                if gp:
+                    f.append("wprocs:gone Popen")
+                if any(v is not None for v in (ob.get("rc0") or {}).values()):
+                    f.append("wprocs:Popen with returncode stored before the call")
+        if any(t for _, t in case["list"]):
+            f.append("wprocs:equal-not-identical objects")
+        if case["fam"].get("enum"):
+            f.append("wprocs:enum")
+            if ob.get("kind") == "ok":
+                f.append("wprocs:enum passes~%d" % min(9, max([ob["flat"].count(p["pid"]) for p in case["procs"]] + [0])))
         return f
     fam = case["fam"]
-    obs = [ob] if case["op"] == "wait" else ob
+    obs = [ob] if case["op"] in ("wait", "waitc") else ob
+    if case["op"] == "waitc":
+        f.append("costed:runs")
+        f.append("costed:syscalls=" + ("1-3" if len(ob["costs"]) < 4 else "4-20" if len(ob["costs"]) <= 20 else "21+"))
+        if any(c != [0, 1] for c in ob["costs"]):
+            f.append("costed:some call took time")
     if case["op"] == "popen":
         for o in obs:
             if o.get("ext") is not None:
@@ -1439,7 +1665,7 @@ def features(case, ob):
 def nontrivial(case, ob):
     if case["op"] == "wprocs":
         return ob.get("kind") == "ok" and (len(ob["calls"]) > 1 or bool(ob["sleeps"]))
-    obs = [ob] if case["op"] == "wait" else ob
+    obs = [ob] if case["op"] in ("wait", "waitc") else ob
     return any(o["sleeps"] or o["out"]["kind"] == "timeout" for o in obs) or has_eintr(case["env"]) \
         or len(obs) > 1 or case["pid"] in (0, "self")
 
@@ -1472,13 +1698,26 @@ def correspond(ctx, res, sweep=True):
         for a in range(0, len(cases), CH):
             chunk = cases[a:a + CH]
             evaluate_and_count(ctx, impl, chunk, res, "generated")
-        if ctx.tier == "thorough":
-            costed_support(ctx, impl, res, ctx.n(0, 20000))
+        # system calls that take time (theorem C15_costed_bounds: 40 ms + 5*delta), real wait_pid vs the costed model
+        costed = []
+        for i in range(ctx.n(400, 20000)):
+            c = gen_wait_case(ctx.rng)
+            while c["pid"] == 0:
+                c = gen_wait_case(ctx.rng)
+            costed.append(dict(c, op="waitc", cost_seed=ctx.rng.randrange(1 << 30)))
+        for a in range(0, len(costed), CH):
+            evaluate_and_count(ctx, impl, costed[a:a + CH], res, "generated (system calls take 0-1 ms)")
+        # exhaustive: 2-3 processes x exit pass of each (1, 2, 3, never) x timeout (None, short, long), callback given
+        en = enum_cases()
+        evaluate_and_count(ctx, impl, en, res, "enumerated")
+        res.count("enum:cases", len(en))
         if sweep:
             status_sweep(ctx, impl, res)
             res.exhaustive = ("all 65 536 16-bit wait status words through the real wait_pid (WNOHANG and blocking paths) "
                               "against the model's decode, the Spec's cause table and os.WIFEXITED/WEXITSTATUS/WIFSIGNALED/"
-                              "WTERMSIG (stopped/continued/garbage words included); environments are samples")
+                              "WTERMSIG (stopped/continued/garbage words included); wait_procs with a callback for every combination of 2-3 "
+                              "processes x the pass in which each exits (1, 2, 3, never) x timeout (None, 50 ms, 3.5 s): 196 cases; "
+                              "other environments are samples")
     finally:
         impl.close()
 
@@ -1486,7 +1725,7 @@ def correspond(ctx, res, sweep=True):
 def evaluate_and_count(ctx, impl, cases, res, source):
     """evaluate() plus distribution / non-triviality accounting (re-observes nothing: the observation
     made for the comparison is the one counted)."""
-    orig_run = (impl.run_wait, impl.run_pwait, impl.run_wprocs, impl.run_popen)
+    orig_run = (impl.run_wait, impl.run_pwait, impl.run_wprocs, impl.run_popen, impl.run_waitc)
     seen = []
 
     def wrap(fn):
@@ -1495,11 +1734,11 @@ def evaluate_and_count(ctx, impl, cases, res, source):
             seen.append((case, ob))
             return ob
         return g
-    impl.run_wait, impl.run_pwait, impl.run_wprocs, impl.run_popen = (wrap(f) for f in orig_run)
+    impl.run_wait, impl.run_pwait, impl.run_wprocs, impl.run_popen, impl.run_waitc = (wrap(f) for f in orig_run)
     try:
         evaluate(ctx, impl, cases, res, source)
     finally:
-        impl.run_wait, impl.run_pwait, impl.run_wprocs, impl.run_popen = orig_run
+        impl.run_wait, impl.run_pwait, impl.run_wprocs, impl.run_popen, impl.run_waitc = orig_run
     for k, (case, ob) in enumerate(seen):
         for f in features(case, ob):
             res.count(f)
@@ -1542,7 +1781,7 @@ def _candidates(case):
     fam = {"timeout": "?", "kind": "?", "status": "?", "place": "?", "eintr": "?", "n": 0}
     best = dict(case, fam=fam)
     cands = []
-    if case["op"] in ("wait", "pwait", "popen"):
+    if case["op"] in ("wait", "waitc", "pwait", "popen"):
         if has_eintr(case["env"]):
             cands.append(dict(best, env=dict(case["env"], eintr=[], eintrTail=False)))
         if case["op"] in ("pwait", "popen"):
@@ -1562,6 +1801,13 @@ def _candidates(case):
                     cands.append(c)
         if case["hasCb"]:
             cands.append(dict(best, hasCb=False))
+        for i, p in enumerate(case["procs"]):
+            if p.get("extpoll"):
+                cands.append(dict(best, procs=[dict((k, v) for k, v in q.items() if not (j == i and k == "extpoll"))
+                                              for j, q in enumerate(case["procs"])]))
+            elif p.get("popen"):
+                cands.append(dict(best, procs=[dict((k, v) for k, v in q.items() if not (j == i and k == "popen"))
+                                              for j, q in enumerate(case["procs"])]))
         if len(case["list"]) > len(case["procs"]):
             seen, lst = set(), []
             for x in case["list"]:
